@@ -280,6 +280,11 @@ pub struct Case2 {
     early: Vec<Early>,
     busy: Option<(u16, u16)>,
     rt_seed: u64,
+    /// 0: doors and holders are the node's starting nodes. 1..2: the node is configured with that
+    /// many *routers* only (literal ip:port); the routers name 11..13 doors and the holders, which
+    /// all answer find_node within 250 ms (a router-only node needs 10 good nodes to complete)
+    #[serde(default)]
+    routers: u8,
 }
 
 pub struct ScriptedEarly;
@@ -303,8 +308,9 @@ impl Stage for ScriptedEarly {
             vec(early, 1..=5),
             proptest::option::weighted(0.3, (300u16..1200, 10u16..40).prop_map(|(period, pct)| (period, (period as u32 * pct as u32 / 100) as u16))),
             any::<u64>(),
+            prop_oneof![3 => Just(0u8), 1 => Just(1u8), 1 => Just(2u8)],
         )
-            .prop_map(|(v6, doors, holders, doors_reveal, early, busy, rt_seed)| Case2 { v6, doors, holders, doors_reveal, early, busy, rt_seed })
+            .prop_map(|(v6, doors, holders, doors_reveal, early, busy, rt_seed, routers)| Case2 { v6, doors, holders, doors_reveal, early, busy, rt_seed, routers })
             .boxed()
     }
     fn run(&self, c: &Case2) -> Outcome {
@@ -315,8 +321,14 @@ impl Stage for ScriptedEarly {
             let n2_addr = fam_addr(c.v6, 501, 6881);
             let pinger = fam_addr(c.v6, 990, 9990);
             let net = SimNet::new(Box::new(BusyTwo { inner: Instant0, a: n_addr, b: n2_addr, to: pinger, ms: c.busy.map(|b| b.1 as u64).unwrap_or(0) }));
-            let nd = c.doors.len();
-            let nh = c.holders.len();
+            // router mode: 11..13 doors, everybody answers find_node within 250 ms
+            let (doors, holder_delays): (Vec<u16>, Vec<u16>) = if c.routers > 0 {
+                ((0..10 + c.doors.len()).map(|i| c.doors[i % c.doors.len()].min(250)).collect(), c.holders.iter().map(|d| (*d).min(250)).collect())
+            } else {
+                (c.doors.clone(), c.holders.clone())
+            };
+            let nd = doors.len();
+            let nh = holder_delays.len();
             let all: Vec<(Id, SocketAddr)> = (0..nd + nh).map(|i| (mk_id(50 + i as u8, 7), fam_addr(c.v6, 10 + i as u16, 6881))).collect();
             let holders: Vec<(Id, SocketAddr)> = all[nd..].to_vec();
             let mut expected: BTreeSet<SocketAddr> = BTreeSet::new();
@@ -324,10 +336,10 @@ impl Stage for ScriptedEarly {
                 let (id, addr) = all[i];
                 let others: Vec<(Id, SocketAddr)> = all.iter().enumerate().filter(|(j, _)| *j != i).map(|(_, x)| *x).collect();
                 let is_holder = i >= nd;
-                let fn_delay = if is_holder { c.holders[i - nd] } else { c.doors[i] } as u64;
+                let fn_delay = if is_holder { holder_delays[i - nd] } else { doors[i] } as u64;
                 let values: Vec<SocketAddr> = if is_holder { (0..2).map(|k| fam_addr(c.v6, 700 + (i * 4 + k) as u16, 5000 + k as u16)).collect() } else { vec![] };
                 expected.extend(values.iter().copied());
-                let reveal: Vec<(Id, SocketAddr)> = if is_holder { others.clone() } else if c.doors_reveal { holders.clone() } else { vec![] };
+                let reveal: Vec<(Id, SocketAddr)> = if is_holder { others.clone() } else if c.doors_reveal || c.routers > 0 { holders.clone() } else { vec![] };
                 spawn_puppet(&net, addr, move |_raw, msg, from, _now| {
                     let Some(m) = msg else { return vec![] };
                     let KBody::Query(q) = &m.body else { return vec![] };
@@ -344,11 +356,34 @@ impl Stage for ScriptedEarly {
                     }
                 });
             }
-            let contacts: Vec<SocketAddr> = all.iter().map(|x| x.1).collect();
+            let mut contacts: Vec<SocketAddr> = all.iter().map(|x| x.1).collect();
+            let mut routers: Vec<String> = vec![];
+            for r in 0..c.routers {
+                let addr = fam_addr(c.v6, 40 + r as u16, 6881);
+                let id = mk_id(90 + r, 7);
+                let names = all.clone();
+                spawn_puppet(&net, addr, move |_raw, msg, from, _now| {
+                    let Some(m) = msg else { return vec![] };
+                    let KBody::Query(q) = &m.body else { return vec![] };
+                    let r = match q {
+                        KQuery::FindNode { .. } => {
+                            let (nodes, nodes6) = node_lists(&names);
+                            KResp { id: id.to_vec(), nodes, nodes6, ..Default::default() }
+                        }
+                        KQuery::GetPeers { .. } => KResp { id: id.to_vec(), token: Some(vec![0xAA; 8]), ..Default::default() },
+                        _ => KResp { id: id.to_vec(), ..Default::default() },
+                    };
+                    vec![Out::now(from, &resp(&m.tid, r))]
+                });
+                routers.push(addr.to_string());
+            }
+            if c.routers > 0 {
+                contacts.clear();
+            }
             if let Some((period, _)) = c.busy {
                 spawn_pinger(&net, pinger, n2_addr, 7, period as u64, 60);
             }
-            let twin = start_node(&net, &NodeCfg { addr: n2_addr, id: mk_id(201, 0), read_only: false, nodes: contacts.clone(), routers: vec![], announce_port: None });
+            let twin = start_node(&net, &NodeCfg { addr: n2_addr, id: mk_id(201, 0), read_only: false, nodes: contacts.clone(), routers: routers.clone(), announce_port: None });
             let start = net.now();
             let tw = twin.clone();
             let net3 = net.clone();
@@ -375,9 +410,9 @@ impl Stage for ScriptedEarly {
             if let Some((period, _)) = c.busy {
                 spawn_pinger(&net, pinger, n_addr, net.now_ms() + 7, period as u64, 60);
             }
-            let n = start_node(&net, &NodeCfg { addr: n_addr, id: mk_id(200, 0), read_only: false, nodes: contacts.clone(), routers: vec![], announce_port: None });
+            let n = start_node(&net, &NodeCfg { addr: n_addr, id: mk_id(200, 0), read_only: false, nodes: contacts.clone(), routers: routers.clone(), announce_port: None });
             let n_start = net.now();
-            let first_door = *c.doors.iter().min().unwrap() as u64;
+            let first_door = *doors.iter().min().unwrap() as u64;
             let mut handles = vec![];
             let mut in_window = false;
             for e in &c.early {
@@ -410,11 +445,11 @@ impl Stage for ScriptedEarly {
                     return Outcome::violation(kind, format!("search issued {at_ms} ms after start (first contact answers after {first_door} ms, bootstrap completes after ~{boot_ms} ms) yielded {got:?}; the same search right after bootstrapped() yields {r_late:?}"));
                 }
             }
-            Outcome::pass(in_window).label(if in_window { "search-between-first-answer-and-completion" } else { "no-search-in-window" }).label(if c.doors_reveal { "doors-reveal" } else { "doors-mute" })
+            Outcome::pass(in_window).label(if in_window { "search-between-first-answer-and-completion" } else { "no-search-in-window" }).label(if c.doors_reveal { "doors-reveal" } else { "doors-mute" }).label(if c.routers > 0 { "router-only" } else { "starting-nodes" })
         })
     }
     fn rule(&self) -> String {
-        "scripted world: 1..3 'door' contacts that answer find_node after 0..300 ms (naming everybody) but whose get_peers answers carry only a token (30 %: also the holders), and 1..2 'holder' contacts that hold the peers of H but answer find_node only after 0.2..1.9 s, so that the initial round stays open while the table already has good nodes; all are starting contacts of a fresh node N; 1..5 searches for H at: start, a generated offset 0..3 s, just before / at / after / within 190 ms of the completion time learnt from an identically configured twin; optionally a busy event loop. Oracle (metamorphic): when the twin's search right after bootstrapped() yields exactly the holders' peers (otherwise nothing is asserted), so does every search on N. Non-trivial: a search issued after the first contact answered and > 5 ms before completion".into()
+        "scripted world: 1..3 'door' contacts that answer find_node after 0..300 ms (naming everybody) but whose get_peers answers carry only a token (30 %: also the holders), and 1..2 'holder' contacts that hold the peers of H but answer find_node only after 0.2..1.9 s, so that the initial round stays open while the table already has good nodes; all are starting contacts of a fresh node N (40 %: N is configured with 1..2 routers only, which name 11..13 doors and the holders, all answering within 250 ms, doors revealing the holders — a router-only node needs 10 good nodes to complete); 1..5 searches for H at: start, a generated offset 0..3 s, just before / at / after / within 190 ms of the completion time learnt from an identically configured twin; optionally a busy event loop. Oracle (metamorphic): when the twin's search right after bootstrapped() yields exactly the holders' peers (otherwise nothing is asserted), so does every search on N. Non-trivial: a search issued after the first contact answered and > 5 ms before completion".into()
     }
 }
 
